@@ -45,6 +45,9 @@ TGT_SEAMSIM_EXP = os.path.join(HERE, "target-seamsim-exp" + TGT_SUFFIX)
 PARSIM_EXP = os.path.join(TGT_PARSIM_EXP, "release", "parsim")
 PARSIM_DBG = os.path.join(TGT_PARSIM, "checked", "parsim")
 SEAMSIM_EXP = os.path.join(TGT_SEAMSIM_EXP, "release", "seamsim")
+# the library built with the `par` feature alone (no `log`, no `serde`): what `--no-default-features --features par` users get
+TGT_PARSIM_MIN = os.path.join(HERE, "target-parsim-min" + TGT_SUFFIX)
+PARSIM_MIN = os.path.join(TGT_PARSIM_MIN, "release", "parsim")
 
 ENV = dict(os.environ, CARGO_NET_OFFLINE="true")
 # glibc malloc otherwise trims and re-faults the heap top on every large temporary buffer
@@ -70,13 +73,16 @@ PLANS = {
     "C05": [("parsim", "C05", {"quick": dict(count=5000, scheds=20), "thorough": dict(count=60000, scheds=40)}),
             ("parsim-checked", "C05", {"quick": dict(count=800, scheds=8), "thorough": dict(count=10000, scheds=16)}),
             ("parsim-exp", "C05", {"thorough": dict(count=6000, scheds=12)}),
+            ("parsim-min", "C05", {"quick": dict(count=600, scheds=6), "thorough": dict(count=6000, scheds=12)}),
             ("miri", "C05E3", {"thorough": dict(count=32)})],
     "C03": [("parsim", "C03", {"quick": dict(count=5000, scheds=12), "thorough": dict(count=50000, scheds=30)}),
-            ("parsim-checked", "C03", {"quick": dict(count=800, scheds=6), "thorough": dict(count=8000, scheds=12)})],
+            ("parsim-checked", "C03", {"quick": dict(count=800, scheds=6), "thorough": dict(count=8000, scheds=12)}),
+            ("parsim-min", "C03", {"quick": dict(count=600, scheds=6), "thorough": dict(count=6000, scheds=12)})],
     "C06": [
         ("parsim", "C06", {"quick": dict(count=6000, scheds=16), "thorough": dict(count=60000, scheds=32)}),
         ("parsim", "C06N", {"quick": dict(count=1000, scheds=10), "thorough": dict(count=10000, scheds=20)}),
         ("parsim-checked", "C06", {"quick": dict(count=800, scheds=8), "thorough": dict(count=10000, scheds=16)}),
+        ("parsim-min", "C06", {"quick": dict(count=800, scheds=8), "thorough": dict(count=8000, scheds=16)}),
         ("miri", "C06E3", {"thorough": dict(count=32)}),
     ],
     "C10": [
@@ -138,13 +144,15 @@ def build(engines):
         took["parsim-checked"] = run_cargo(os.path.join(HERE, "parsim"), ["--profile", "checked"], "parsim (checked profile)")
     if "parsim-exp" in engines:
         took["parsim-exp"] = run_cargo(os.path.join(HERE, "parsim"), ["--release", "--features", "experimental"], "parsim (experimental feature)", TGT_PARSIM_EXP)
+    if "parsim-min" in engines:
+        took["parsim-min"] = run_cargo(os.path.join(HERE, "parsim"), ["--release", "--no-default-features"], "parsim (library with the par feature only)", TGT_PARSIM_MIN)
     if "seamsim-exp" in engines:
         took["seamsim-exp"] = run_cargo(os.path.join(HERE, "seamsim"), ["--release", "--features", "experimental"], "seamsim (experimental feature)", TGT_SEAMSIM_EXP)
     return took
 
 
 def engine_bin(engine):
-    return {"parsim": PARSIM, "seamsim": SEAMSIM, "seamsim-checked": SEAMSIM_DBG, "parsim-exp": PARSIM_EXP, "seamsim-exp": SEAMSIM_EXP, "parsim-checked": PARSIM_DBG}[engine]
+    return {"parsim": PARSIM, "seamsim": SEAMSIM, "seamsim-checked": SEAMSIM_DBG, "parsim-exp": PARSIM_EXP, "seamsim-exp": SEAMSIM_EXP, "parsim-checked": PARSIM_DBG, "parsim-min": PARSIM_MIN}[engine]
 
 
 # ----------------------------------------------------------------------------
@@ -849,7 +857,7 @@ def chan_conformance(count):
 
 
 def cmd_setup():
-    took = build({"parsim", "seamsim", "seamsim-checked", "parsim-checked"})
+    took = build({"parsim", "seamsim", "seamsim-checked", "parsim-checked", "parsim-min"})
     conf = chan_conformance(4000)
     log("setup ok: %s; channel model conforms to crossbeam-channel on %d sequences / %d operations" % (took, conf["sequences"], conf["operations"]))
     return 0
